@@ -122,6 +122,40 @@ def canon(text):
     return re.sub(r'\s+', ' ', text).strip()
 
 
+def canon_expr(text):
+    """the text of a condition in one spelling: `x == false` / `!x`, `p == nullptr` / `!p`, a literal on the left of a
+    comparison moved to the right (the respellings of tools/cxx2lean.py, §21) — so that a harmless respelling of a condition does
+    not change the table.  Text the expression parser does not read is kept as it is."""
+    try:
+        toks = cxx2lean.tokenize(text)
+        p = cxx2lean.Parser(toks)
+        e = p.expr()
+        if p.peek()[0] != 'eof':
+            return text
+    except Exception:
+        return text
+
+    def norm(e):
+        if not isinstance(e, tuple):
+            return e
+        if e and e[0] in ('num', 'str', 'chr', 'id'):
+            return e
+        e = tuple(norm(x) if isinstance(x, tuple) else ([norm(y) for y in x] if isinstance(x, list) else x) for x in e)
+        e = cxx2lean.canon_bool(e)
+        if e[0] == 'bin' and e[1] in ('==', '!='):
+            l, r = e[2], e[3]
+            if cxx2lean.is_literal(l) and not cxx2lean.is_literal(r):
+                l, r = r, l
+            if r == ('id', 'nullptr'):
+                return ('un', '!', l) if e[1] == '==' else l
+            return ('bin', e[1], l, r)
+        return e
+    try:
+        return cxx2lean.cs(norm(e))
+    except Exception:
+        return text
+
+
 def scan(body):
     """-> [(text, guarded)] for the statements / conditions of a function body (without its outer braces)"""
     out = []
@@ -153,7 +187,7 @@ def scan(body):
             cur = ''
             m = re.match(r'^(if|while|for|switch)\b\s*(constexpr\s*)?\((.*)\)$', t)
             if c == '{' and m:
-                out.append(('%s (%s)' % (m.group(1), canon(m.group(3))), guarded()))
+                out.append(('%s (%s)' % (m.group(1), canon_expr(canon(m.group(3))) if m.group(1) in ('if', 'while') else canon(m.group(3))), guarded()))
             elif c == '{' and t and not re.match(r'^(else|try|do)$', t) and not t.startswith('catch'):
                 # `if (c) stmt;` forms are handled below; anything else before '{' is an initialiser list or lambda: keep the text
                 cur = t + ' {'
@@ -183,7 +217,7 @@ def scan(body):
                             d -= 1
                             if d == 0:
                                 break
-                    out.append(('%s (%s)' % (m2.group(1), canon(t[k + 1:q])), guarded()))
+                    out.append(('%s (%s)' % (m2.group(1), canon_expr(canon(t[k + 1:q]))), guarded()))
                     rest = canon(t[q + 1:])
                     if rest:
                         out.append((rest, guarded()))
@@ -225,6 +259,50 @@ def tables(repo):
     return res
 
 
+# the virtual queries of `expectation` (what a user calls on a NAMED_ handle) are the ones marked `override`; the like-named
+# members of sequence_handler_base are internal and only reached from callers that hold the lock
+QUERY_RE = re.compile(r'\bbool\s+(is_satisfied|is_saturated)\s*\(\s*\)\s*const\s*(?:noexcept\s*)?override\s*\{')
+
+
+def lock_free_reads(repo):
+    """the state queries a user may call while other threads use the library (is_satisfied / is_saturated / is_completed) that do
+    NOT take the lock: -> [(function, site, identifier read, declared type of that identifier in the same file)].
+    Queries that only forward to another query (`return matcher->is_satisfied()`) read no data member themselves."""
+    res = []
+    for f in FILES:
+        raw = open(os.path.join(repo, f)).read()
+        src = cxx2lean.strip_comments_keep_lines(raw)
+        for m in QUERY_RE.finditer(src):
+            o = m.end() - 1
+            depth, j = 0, o
+            while j < len(src):
+                if src[j] == '{':
+                    depth += 1
+                elif src[j] == '}':
+                    depth -= 1
+                    if depth == 0:
+                        break
+                j += 1
+            body = src[o + 1:j]
+            if LOCK_RE.search(body):
+                continue
+            line = src.count('\n', 0, m.start()) + 1
+            site = '%s:%d' % (os.path.basename(f), line)
+            # enclosing class: the nearest `struct X` / `class X` in front
+            cls = re.findall(r'\b(?:struct|class)\s+(\w+)[^;{]*\{', src[:m.start()])
+            name = '%s::%s' % (cls[-1] if cls else '?', m.group(1))
+            stmts = [canon(t) for t in body.split(';') if canon(t)]
+            for st in stmts:
+                mm = re.match(r'^return\s+(.*)$', st)
+                expr = mm.group(1) if mm else st
+                if re.search(r'->\s*is_(satisfied|saturated|completed)\s*\(', expr) or re.search(r'\.\s*is_(satisfied|saturated|completed)\s*\(', expr):
+                    continue                                  # forwards to another query
+                for ident in sorted(set(re.findall(r'\b[A-Za-z_]\w*\b', expr)) - {'return', 'true', 'false', 'this', 'nullptr'}):
+                    d = re.search(r'(?m)^[ \t]*(?!return\b)((?:mutable\s+)?[\w:]+(?:<[^;{}()]*>)?(?:\s*[*&])?)\s+%s\s*(?:\{[^}]*\}|=[^;]*)?;' % re.escape(ident), src)
+                    res.append((name, site, ident, canon(d.group(1)) if d else '?'))
+    return res
+
+
 def lean_str(s):
     return '"' + s.replace('\\', '\\\\').replace('"', '\\"') + '"'
 
@@ -239,7 +317,12 @@ def generate(repo, path):
         body = ',\n'.join('    (%s, %s)' % (lean_str(t), 'true' if g else 'false') for t, g in sts)
         ents.append('  (%s, %s, [\n%s])' % (lean_str(key), lean_str(site), body))
     lines.append(',\n'.join(ents))
-    lines += [']', 'end Tromp.Gen', '']
+    lines += [']', '']
+    reads = lock_free_reads(repo)
+    lines += ['/-- the state queries that do NOT take the lock: (function, site, data member read, declared type of that member) -/',
+              'def lockFreeReads : List (String × String × String × String) := [',
+              ',\n'.join('  (%s, %s, %s, %s)' % tuple(lean_str(x) for x in r) for r in reads), ']']
+    lines += ['end Tromp.Gen', '']
     new = '\n'.join(lines)
     old = open(path).read() if os.path.exists(path) else None
     if old != new:
